@@ -192,9 +192,15 @@ class RDMol2StereoMolGraph:
                 perm = atom.GetUnsignedProp("_chiralPermutation")
                 tbp_order = self._tbp_atom_order_permutation_dict[perm]
                 neigh_atoms = tuple([neighbors[i] for i in tbp_order])
+                # the reordered neighbours follow the TB1 convention: the
+                # first and the last one are the axial atoms and the other
+                # three are anticlockwise when viewed from the first one,
+                # which is parity -1 of TrigonalBipyramidal as perceived
+                # from coordinates
+                neigh_atoms = tuple([neigh_atoms[i] for i in (0, 4, 1, 2, 3)])
                 tbp_atoms = (id_atom_map[atom_idx], *neigh_atoms)
                 assert len(tbp_atoms) == 6
-                atom_stereo = TrigonalBipyramidal(tbp_atoms, 1)
+                atom_stereo = TrigonalBipyramidal(tbp_atoms, -1)
 
             elif chiral_tag == Chem.ChiralType.CHI_OCTAHEDRAL:
                 perm = atom.GetUnsignedProp("_chiralPermutation")
